@@ -2,6 +2,7 @@ import FxVerif.Model.C12
 import FxVerif.Model.C12Sig
 import FxVerif.Model.C12Env
 import FxVerif.Model.C12Genesis
+import FxVerif.Model.C12Msg
 import FxVerif.Model.Util
 /-! line-protocol driver for the C12 model: `lake env lean --run Driver/C12.lean < ops.txt`
 
@@ -154,6 +155,17 @@ def stepLine (s : St) (line : String) : St × String :=
     match s.saved with
     | _ :: rest => ({ s with saved := rest }, "ok")
     | [] => (s, "bad-op")
+  | ["vbasic", kind, reg, b32, extOk, tokOk, sig] =>
+    let key : Option ObjKey := match kind with
+      | "oset" => some (.oracleSet 0) | "batch" => some (.batch "T" 0) | "bcall" => some (.bridgeCall 0) | _ => none
+    let sigv : Option (Option (List Nat)) := if sig == "!" then some none else if sig == "-" then some (some []) else (unhex sig).map some
+    match key, sigv with
+    | some k, some sv =>
+      let E : VbEnv := ⟨fun _ => reg == "1", fun _ => b32 == "1", fun _ x => if x == "T" then tokOk == "1" else extOk == "1"⟩
+      match validateBasic E ⟨"C", ⟨k, "B", "E", sv⟩⟩ with
+      | none => (s, "ok")
+      | some c => (s, "rej:" ++ c.text.replace " " "-")
+    | _, _ => (s, "bad-op")
   | ["verifysig", file, d, sig, signer, mh, rc] => (s, doVerifySig file d sig signer mh rc)
   | ["chain", c, style, gid] =>
     match unhexD gid with
